@@ -20,6 +20,9 @@
   REJECT   ... required attributes are exactly the specification's (decimal scale is optional, default 0: F21); only
            record / enum / fixed define a name (F26)
   FORMS    the `type` of a schema object can hold a reference, not only a built-in type name        (F28, known finding)
+  FIXUP    ... the table of resolved names is indexed exactly where (idx & BIT) != 0 holds
+  NSARG    ... the enclosing namespace is a parameter of the recursion (kept in mutable parser state it is reported,
+           child by child, as a protocol that was not reviewed)
 It does NOT decide the resolved graph for every JSON spelling.
 """
 from ..lib import *
